@@ -152,6 +152,15 @@ func mergeToWriter(segments []*SegmentBase, drops []*roaring.Bitmap,
 				return nil, 0, 0, nil, nil, 0, err
 			}
 		}
+	} else {
+		// nothing survives: every document of every segment maps to docDropped
+		newDocNums = make([][]uint64, len(segments))
+		for segI, segment := range segments {
+			newDocNums[segI] = make([]uint64, segment.numDocs)
+			for docNum := range newDocNums[segI] {
+				newDocNums[segI][docNum] = docDropped
+			}
+		}
 	}
 
 	// we can persist the fields section index now, this will point
